@@ -1502,8 +1502,31 @@ fn with_parens_liberal(expr: &Expression) -> Markup {
 fn pretty_print_binop(op: &BinaryOperator, lhs: &Expression, rhs: &Expression) -> Markup {
     match op {
         BinaryOperator::ConvertTo => {
-            // never needs parens, it has the lowest precedence:
-            lhs.pretty_print() + op.pretty_print() + rhs.pretty_print()
+            // It has the lowest precedence of all binary operators, only conditionals (and a
+            // conversion on the right hand side) need parens:
+            let lhs_add_parens_if_needed = |expr: &Expression| {
+                if matches!(expr, Expression::Condition { .. }) {
+                    with_parens(expr)
+                } else {
+                    expr.pretty_print()
+                }
+            };
+            let rhs_add_parens_if_needed = |expr: &Expression| {
+                if matches!(
+                    expr,
+                    Expression::Condition { .. }
+                        | Expression::BinaryOperator {
+                            op: BinaryOperator::ConvertTo,
+                            ..
+                        }
+                ) {
+                    with_parens(expr)
+                } else {
+                    expr.pretty_print()
+                }
+            };
+
+            lhs_add_parens_if_needed(lhs) + op.pretty_print() + rhs_add_parens_if_needed(rhs)
         }
         BinaryOperator::Mul => match (lhs, rhs) {
             (
@@ -1716,7 +1739,7 @@ impl PrettyPrint for Expression<'_> {
                     }
                 }
 
-                expr.pretty_print()
+                with_parens(expr)
                     + m::operator("(")
                     + itertools::Itertools::intersperse(
                         args.iter().map(|e: &Expression| e.pretty_print()),
@@ -1774,7 +1797,7 @@ impl PrettyPrint for Expression<'_> {
             AccessField {
                 expr, field_name, ..
             } => {
-                expr.pretty_print()
+                with_parens(expr)
                     + m::operator(".")
                     + m::identifier(field_name.to_compact_string())
             }
